@@ -109,6 +109,12 @@ chk("C14", "model_checking",
     "bounded exhaustive block histories on the real app -> real KVIndexer + rpc backend over a recorded-chain client; index dump vs chain model; DB-write crash-point x restart-height enumeration of the real indexer service",
     "DESIGN.md §3.5, §5 C14", "seqx-replay")
 
+chk("C03", "model_checking",
+    "Bounded-exhaustive. Part A: every sequence (modulo reference-state dedup) of <= 3 (thorough <= 4) operations from the full CStateDB alphabet over 3 addresses x 2 slots - balance, nonce, code, storage, transient storage, logs, refund, access list, Suicide, CreateAccount, Touch, bank / cpc-allowance / staking writes through GetCurrentContext, Snapshot and every go-ethereum-valid RevertToSnapshot - and of <= 5-7 operations from three focused sub-alphabets, each replayed on a fresh real StateDB over a CacheContext branch. Every getter and every foreign-module read is compared with a map-based reference (stack of deep copies) after every operation, all stores and the in-memory sets are compared across every revert, and every distinct state is committed and compared with the reference and byte-for-byte with the snapshot-free execution of the surviving operations; discarding leaves the parent unchanged. Part B: all call trees of depth <= 3 and fan-out <= 2 whose frames do SSTORE / LOG1 / erc20 approve / erc20 transfer / staking delegate and end in RETURN / REVERT / INVALID, through the real EVM; failed top frames (call and create) through FinalizeBlock+Commit against an empty block and a no-op transaction of the same sender (only nonce, fee and fee collector may differ). Quick: 72 402 states, 196 472 transitions, 27 996 call trees.",
+    "The implementation is re-executed from scratch for every transition (no clone). States are deduplicated on the reference model's (state, snapshot stack, reverted-flag) rendering. Reward withdrawal, CREATE/SELFDESTRUCT inside Part B frames, gas/refund observation at EVM level and RevertToSnapshot with ids go-ethereum no longer considers valid are out of scope. The mutant 'Logs.Copy returns the receiver' is equivalent (append-only list under stack discipline) and not detectable.",
+    "explicit-state BFS over StateDB operation sequences (replay states, reference-model dedup) + exhaustive bounded call-tree enumeration + ABCI store-diff differential",
+    "DESIGN.md §5 C03", "seqx-replay")
+
 NOT_YET = "check not built yet in this round (planned, see DESIGN.md §9)"
 
 def main():
